@@ -692,7 +692,13 @@ func execTenSec(o *harness.Outcome, cfg *Cfg, clk *sim.Clock) {
 		return
 	}
 	if !harness.Call(o, "C11.panic", 0, func() {
-		_, err := flow.LoadRules([]*flow.Rule{{Resource: "res-0", TokenCalculateStrategy: flow.WarmUp, ControlBehavior: flow.Reject,
+		if cfg.HoldMs%20 == 10 {
+			// the rule replaces a plain (Direct) rule with the same ID, resource and interval
+			o.Probe("warm_up_rule_replaces_a_plain_rule_of_the_same_interval")
+			_, _ = flow.LoadRules([]*flow.Rule{{ID: "r", Resource: "res-0", TokenCalculateStrategy: flow.Direct, ControlBehavior: flow.Reject,
+				Threshold: cfg.T, StatIntervalInMs: cfg.Interval}})
+		}
+		_, err := flow.LoadRules([]*flow.Rule{{ID: "r", Resource: "res-0", TokenCalculateStrategy: flow.WarmUp, ControlBehavior: flow.Reject,
 			Threshold: cfg.T, WarmUpPeriodSec: cfg.Period, WarmUpColdFactor: cfg.Cold, StatIntervalInMs: cfg.Interval}})
 		if err != nil {
 			o.Fail("C11.load-error", 0, "%v", err)
